@@ -7,4 +7,14 @@ CHECKS = {
         "note": "Trusted: z3, the symx proxies/byte+CRC models (validated path by path against the unshadowed import), the UG101-derived reference codec. Bounds: payload <= 1-2 bytes, k <= 2-3.",
         "technique": SYMX,
     },
+    "C18": {
+        "text": "The status family and the 8-bit code are solver variables realised at enum construction: all 2x256 legacy codes, every defined unified status plus undefined 32-bit samples, and every two-step history (any first conversion, then each steering status) are explored as solver-decided path classes of the real from_ember_status; totality, pass-through, OK-iff-success and the steering-code table are asserted on each. Exhaustive over the 8-bit families.",
+        "note": "Trusted: z3, zigpy's enum machinery, the literal table of expected unified codes in checks/c18.py. Undefined unified 32-bit statuses only by listed samples.",
+        "technique": SYMX,
+    },
+    "C19": {
+        "text": "Real ControllerApplication._watchdog_feed with the feed counter, the start value of the consecutive-failure count and the protocol version as solver terms (so the modulo-period and threshold tests fork on them) and every feed's outcome/strike point a solver-decided choice: for every path the raise-iff-exceeded rule, the clearing on success and the keep-alive command (nop / counter read / periodic read-and-clear) are checked against a reference count. Because the start state is symbolic over all reachable counts, L feeds cover longer histories inductively.",
+        "note": "Trusted: z3, symx proxies, the command-level EZSP stub; application object allocated without zigpy's constructor. Bounds: L=4 (quick) / 6 (thorough) feeds from every start state.",
+        "technique": SYMX,
+    },
 }
